@@ -508,16 +508,35 @@ theorem collectDirs_sub : ∀ (dirs : List Directive) (c : Bool) (kept : List Di
         · exact List.mem_cons_of_mem _ (collectDirs_sub r c' kept' hr d hd)
     · cases h
 
+theorem withInputEscapes_mem : ∀ (kept : List Directive) (d : Directive),
+    d ∈ withInputEscapes kept → d.args = [] ∨ d ∈ kept
+  | [], d, h => by cases h
+  | d0 :: r, d, h => by
+    unfold withInputEscapes at h
+    split at h
+    · rcases List.mem_cons.mp h with rfl | h
+      · exact Or.inl rfl
+      · rcases List.mem_cons.mp h with rfl | h
+        · exact Or.inr List.mem_cons_self
+        · rcases withInputEscapes_mem r d h with h | h
+          · exact Or.inl h
+          · exact Or.inr (List.mem_cons_of_mem _ h)
+    · rcases List.mem_cons.mp h with rfl | h
+      · exact Or.inr List.mem_cons_self
+      · rcases withInputEscapes_mem r d h with h | h
+        · exact Or.inl h
+        · exact Or.inr (List.mem_cons_of_mem _ h)
+
 theorem printDirs_mem {ae : Autoescape} {c : Bool} {kept : List Directive} {d : Directive}
     (h : d ∈ printDirs ae c kept) : d.args = [] ∨ d ∈ kept := by
   unfold printDirs at h
   by_cases hc : ((if c then Autoescape.off else ae) != .off) = true
   · rw [if_pos hc] at h
-    rcases List.mem_cons.mp h with rfl | h
-    · exact Or.inl rfl
-    · exact Or.inr h
+    rcases List.mem_append.mp h with h | h
+    · exact withInputEscapes_mem kept d h
+    · rw [List.mem_singleton] at h; subst h; exact Or.inl rfl
   · rw [if_neg hc] at h
-    exact Or.inr h
+    exact withInputEscapes_mem kept d h
 
 theorem findPh_mem {b : Bytes} (name : Bytes) : ∀ (phs : List (Nat × Bytes × M Unit)) (best : Option (Nat × M Unit)),
     (∀ e ∈ phs, SU b e.2.2) → (∀ x, best = some x → SU b x.2) → ∀ w, findPh name phs best = some w → SU b w
@@ -587,8 +606,8 @@ theorem s_visitPrint {b : Bytes} (hb : IsIdent b) (arg : Expr) (dirs : List Dire
     have h2 : SU b (emit (.ident s.bufferName)) := s_emit (by rw [hs.2]; exact hb)
     have h3 := s_walkExpr sk o b arg ha
     have hds : ∀ (ds : List Directive), (∀ d ∈ ds, ∀ a ∈ d.args, ExprWN a) →
-        SU b (seqM (ds.map fun d => do fx (directiveJsName d.name); fx b!"(")) ∧
-        SU b (seqM (ds.reverse.map (closeDirective sk o))) := by
+        SU b (seqM (ds.reverse.map fun d => do fx (directiveJsName d.name); fx b!"(")) ∧
+        SU b (seqM (ds.map (closeDirective sk o))) := by
       intro ds hds
       constructor
       · apply Spec.seqM
@@ -598,7 +617,7 @@ theorem s_visitPrint {b : Bytes} (hb : IsIdent b) (arg : Expr) (dirs : List Dire
       · apply Spec.seqM
         intro m hm
         obtain ⟨d, hdm, rfl⟩ := List.mem_map.mp hm
-        exact s_closeDirective sk o d (hds d (List.mem_reverse.mp hdm))
+        exact s_closeDirective sk o d (hds d hdm)
     have ⟨h4, h5⟩ := hds (printDirs s.autoescape cancel kept) (by
       intro d hdm
       rcases printDirs_mem hdm with h | h
